@@ -284,6 +284,15 @@ def _evolve_checked(cx, fam, spec, ttno, h, lab, q, t, method, tau, normalize, t
     run.count("call:" + key)
     cx.n += 1
     _cfg(t, method, tight, no_growth=(fam == "cluster"))
+    if method is PS2 and fam != "cluster" and cx.rng.random() < 0.5:
+        # per-bond limits (entry i = the bond owned by node i of node_list, same convention as TTNS.bond_dims), each equal to the
+        # largest Schmidt rank that bond can have: sufficient for every state, but all different
+        below = [float(x) for x in t.bond_dims_exact]
+        total = float(np.prod([float(np.prod(p)) for p in t.pbond_dims]))
+        lim = [int(max(1, min(b, total / b, 400))) for b in below]
+        lim[t.node_idx[t.root]] = 1
+        t.compress_config.max_dims = np.array(lim + [1])
+        run.count("ps2:per-bond-limits")
     ps_order = not spec.get("trivial_qn", False) and fam not in ("cluster", "annihilated")
     t_in = t.copy() if (ps_order and method in (PS, PS2) and tol is not None) else None
     snap = L.snapshot(t)
